@@ -26,9 +26,18 @@ func Unmarshal(result Result, value any, settings ...ContextApply) error {
 
 func unmarshal(result Result, value any, settings ...ContextApply) error {
 	val := reflect.ValueOf(value)
+
+	if !val.IsValid() {
+		return fmt.Errorf("cannot unmarshal into nil")
+	}
+
 	typ := val.Type()
 
 	for typ.Kind() == reflect.Pointer {
+		if val.IsNil() {
+			return fmt.Errorf("cannot unmarshal into a nil pointer")
+		}
+
 		val = val.Elem()
 		typ = typ.Elem()
 	}
@@ -36,6 +45,10 @@ func unmarshal(result Result, value any, settings ...ContextApply) error {
 	kind := typ.Kind()
 
 	if kind == reflect.Struct {
+		if !val.CanAddr() {
+			return fmt.Errorf("struct unmarshals must be given a pointer to the struct")
+		}
+
 		return unmarshalStruct(result, val.Addr(), settings...)
 	}
 
